@@ -1,6 +1,8 @@
 """C12 - cached_property computes once, serves one value to all, recomputes after del."""
 import itertools
 
+import functools
+
 from hypothesis import strategies as st
 
 from ..runner import Shard, Violation
@@ -63,9 +65,14 @@ def seq_histories(draw, tier):
             "exc": draw(st.sampled_from(sorted(GETTER_ERRORS))), "aw_value": draw(st.sampled_from([False, False, True])),
             # "small": the getter returns plain numbers that are EQUAL to True / False / each other (1, 1.0, 0, -0.0):
             # awaiters must get the very object the getter returned
-            "small_value": draw(st.sampled_from([False, False, True, "nocompare"])),
+            "small_value": draw(st.sampled_from([False, False, True, "nocompare", "none"])),
             "falsy_instance": draw(st.sampled_from([False, False, True])),
+            # how the getter is given: a function, a partial of one, a bound method of a helper object
+            "getter_form": draw(st.sampled_from(["function", "function", "partial", "bound"])),
             "subclass": draw(st.booleans()), "frozen": draw(st.sampled_from([False, False, True]))}
+
+
+_NOTHING = type("Nothing", (), {"__repr__": lambda self: "<nothing cached>"})()
 
 
 class _NoCompare:
@@ -109,7 +116,9 @@ def make_class(ctx, runs, case, fail_flags):
                 rec[1] = "failed"
                 raise GETTER_ERRORS[case.get("exc", "ValueError")]("planned getter failure")
             value = ["value", self.tag, len(runs)]
-            if case.get("small_value") == "nocompare":
+            if case.get("small_value") == "none":
+                value = None  # "there is no such thing" is a result, cached like any other
+            elif case.get("small_value") == "nocompare":
                 value = _NoCompare(len(runs))
             elif case.get("small_value"):
                 value = _small(len(runs))
@@ -124,12 +133,26 @@ def make_class(ctx, runs, case, fail_flags):
                 rec[1] = "cancelled"
             raise
 
+    form = case.get("getter_form", "function")
+    if form == "partial":
+        async def getter_with_extra(extra, self):
+            return await getter(self)
+
+        given = functools.partial(getter_with_extra, "extra")
+    elif form == "bound":
+        class _Helper:
+            async def compute(self_helper, self):  # noqa: N805
+                return await getter(self)
+
+        given = _Helper().compute
+    else:
+        given = getter
     if case["lock"]:
         class Holder:
-            prop = a.cached_property(LockT)(getter)
+            prop = a.cached_property(LockT)(given)
     else:
         class Holder:
-            prop = a.cached_property(getter)
+            prop = a.cached_property(given)
     Holder.prop.__set_name__(Holder, "prop")
     if case.get("falsy_instance"):
         _falsify(Holder)
@@ -156,7 +179,7 @@ def check_seq(case):
     objs = [Holder(), Holder()]
     for i, o in enumerate(objs):
         object.__setattr__(o, "tag", i)
-    model = [None, None]            # cached value per instance
+    model = [_NOTHING, _NOTHING]    # cached value per instance (None is a value like any other)
     in_dict = [False, False]        # is there anything (value or placeholder) in the instance dict
     taken = []
     flags = {"del-then-await": False, "fail-then-await": False}
@@ -164,7 +187,7 @@ def check_seq(case):
 
     async def do_await(i, awaitable):
         before = len(runs)
-        will_fail = fail_flags.get(i) and model[i] is None
+        will_fail = fail_flags.get(i) and model[i] is _NOTHING
         try:
             value = await awaitable
         except AwaitedDataError:
@@ -177,7 +200,7 @@ def check_seq(case):
             recent[i] = "fail"
             return None
         ran = len(runs) - before
-        if model[i] is None:
+        if model[i] is _NOTHING:
             if ran != 1:
                 return ("getter-did-not-run-when-nothing-cached", f"instance {i}: ran {ran} times, got {value}")
             if value is not runs[-1][2]:
@@ -202,7 +225,7 @@ def check_seq(case):
                 pass
             if name == "await":
                 problem = await do_await(arg, objs[arg].prop)
-                if model[arg] is None:
+                if model[arg] is _NOTHING:
                     in_dict[arg] = True  # the placeholder stays behind after a failure
             elif name == "await-temp":
                 # `await Holder().prop`: the instance is kept alive by the pending access only
@@ -227,7 +250,7 @@ def check_seq(case):
                 if not taken:
                     continue
                 i, awaitable, value_at_take = taken[arg % len(taken)]
-                if value_at_take is not None:
+                if value_at_take is not _NOTHING:
                     # an awaitable of an already computed value keeps denoting that value
                     before = len(runs)
                     try:
@@ -239,7 +262,7 @@ def check_seq(case):
                         problem = ("taken-value-changed", f"{value} vs {value_at_take}")
                 else:
                     problem = await do_await(i, awaitable)
-                    if model[i] is None:
+                    if model[i] is _NOTHING:
                         in_dict[i] = True
             elif name == "hash-attr":
                 # the attribute (placeholder or cached awaitable) goes into a set / is a dict key, as asyncio.gather
@@ -261,7 +284,7 @@ def check_seq(case):
                     raised = True
                 if raised == in_dict[arg]:
                     return ("del-behaviour", f"step {step}: raised={raised} but in_dict={in_dict[arg]}")
-                model[arg] = None
+                model[arg] = _NOTHING
                 in_dict[arg] = False
                 recent[arg] = "del"
                 problem = None
